@@ -2,6 +2,7 @@ import Pocket.Lemmas.Total
 import Pocket.Lemmas.Digits
 import Pocket.Lemmas.FilterRT
 import Pocket.Lemmas.Layout
+import Pocket.Lemmas.ParseFilterWF
 /-
 C07 — filter JSON parsing: integer members never wrap, duplicate tag letters are detected
 whatever their position, and the parser is total.
@@ -83,6 +84,15 @@ theorem duplicate_letter_rejected (st : FlSt) (l : Nat) (after : Bytes) (hl : is
   simp only [Bool.false_eq_true, if_false, hl, and_self, if_true]
   have : ¬ st.tagStarts.length ≥ 32 := by omega
   simp only [this, if_false, List.contains_iff_mem, hseen, if_true]
+
+/-- whatever text is accepted, the result is exactly the encoding of a sized filter (what
+`from_parts` writes for the values the accessors return), inside the buffer, rest untouched -/
+theorem accepted_is_wellformed (inp buf : Bytes) (c n : Nat) (out : Bytes)
+    (h : parseFilter inp buf = .ok (c, n, out)) :
+    ∃ f, FilterSized f ∧ out = encodeFilter f ++ buf.drop n ∧ n = (encodeFilter f).length ∧
+      filterDecode (out.take n) = .ok f ∧ c ≤ inp.length := by
+  obtain ⟨f, hs, rfl, hn, _, hc⟩ := parseFilter_wf inp buf c n out h
+  exact ⟨f, hs, rfl, hn, by rw [List.take_left' hn.symm]; exact filterDecode_encode f hs, hc⟩
 
 /-- **the round trip**: `from_json (as_json f) = from_parts f`, byte for byte, consuming exactly the
 text, for every canonical filter, every trailing input and every sufficient buffer -/
